@@ -428,6 +428,11 @@ func ReachingStoresAt(al *ssa.Alloc, at ssa.Instruction) (stores []*ssa.Store, z
 					for _, s := range writers[f] {
 						add(s)
 					}
+					// a direct call of a closure that stores on all its paths kills earlier values
+					if _, isCall := in.(*ssa.Call); isCall && len(writers[f]) > 0 && mustStore(f, writers[f]) {
+						stopped = true
+						break
+					}
 				}
 				for _, a := range cc.Args {
 					if f := closureOf(a); f != nil {
@@ -503,4 +508,21 @@ func originsNoLoad(v ssa.Value) []ssa.Value {
 	}
 	rec(v)
 	return roots
+}
+
+// mustStore: every return of f is preceded, on all paths, by one of the stores.
+func mustStore(f *ssa.Function, sts []*ssa.Store) bool {
+	set := map[ssa.Instruction]bool{}
+	for _, s := range sts {
+		if s.Parent() != f {
+			return false
+		}
+		set[s] = true
+	}
+	for _, r := range Returns(f) {
+		if !MustPass(Entry(f), r, func(in ssa.Instruction) bool { return set[in] }) {
+			return false
+		}
+	}
+	return true
 }
